@@ -60,6 +60,11 @@ def grouped_items(items):
     return [it for k in order for it in by[k]]
 
 
+def subcanon(p):
+    # the server's entry key for a subscription string (PathMatcher::AdjustStringPrefix with the default prefix)
+    return p[1:] if p.startswith("/") else "*/*/" + p
+
+
 class Gen:
     def __init__(self, rng, multi_subscribers, allow_quiet=False, allow_max=True):
         self.rng = rng
@@ -105,6 +110,11 @@ class Gen:
         rng = self.rng
         have = self.subs[k]
         ps = uniq([rng.choice(have) if (have and rng.random() < 0.85) else subpat(rng, self.n) for _ in range(rng.choice([1, 1, 2]))])
+        # REMOVEPARAMETERS works on parameter NAMES (the spelling used when subscribing), the model on subscription entries:
+        # never unsubscribe an entry under a spelling it was not subscribed with ("*b" for "/*/*/*b")
+        ps = [p for p in ps if (p in have) or all(subcanon(q) != subcanon(p) for q in have)]
+        if not ps:
+            ps = [rng.choice(have)] if have else ["nosuch"]
         for p in ps:
             if p in have:
                 have.remove(p)
@@ -181,6 +191,11 @@ class Gen:
 
 
 DIRECTED = [
+    # pooled subscriber tables: {1->2} (session 1, two overlapping subscriptions, shared by the nodes x1 and x2) and {2->1}
+    # (session 2 on y) have the same hash sum; the second evicts the first from the pool's cache; then one of the two sharing
+    # nodes changes its subscriber set (must not edit the shared table in place)
+    "a;a;a;s:0:0:x1=1&x2=2&y=3;p:1:0:x*&x?;p:2:0:y;p:2:0:x1;s:0:0:x2=5;u:2:x1;s:0:0:x1=6&x2=7;d:1;s:0:0:x1=8&x2=9",
+    "a;a;a;a;s:0:0:x1=1&x2=2&y1=3&y2=4;p:3:0:y*;p:1:0:x*&x?&x1,x2;p:3:0:x2;s:0:0:x1=5&x2=6;u:1:x?;p:2:0:y?&y1,y2;p:2:0:x1;s:0:0:x1=7&x2=8;d:3;s:0:0:x1=9",
     # findings F12 / F14 / F15 (clean on the repaired tree)
     "a;a;a;s:1:0:jeremy=1&jeremy/jenny=2&jeremy/kate=3;s:2:0:kevin=1&kevin/joe=4&kevin/kim=5;p:0:0:j*/k*&k*/j*",
     "a;a;s:1:0:ab=5;p:0:0:a*;p:0:0:ab@g3;p:0:0:ab@g7",
@@ -261,6 +276,53 @@ def malformed_case(rng):
     return ";".join(ops)
 
 
+# the "pool" stream: node sets shared by several nodes' subscriber tables whose (session id, count) pairs collide in the
+# ImmutableHashtablePool hash sum ({a->b} and {b->a}: the pair hash is a product), then single-node subscription changes
+PXS = ["x*", "x?", "x1,x2"]          # each matches exactly x1 and x2
+PYS = ["y*", "y?", "y1,y2"]          # each matches exactly y1 and y2
+PONE = ["x1", "x2", "y1", "y2", "z"]
+
+
+def pool_case(rng):
+    ns = rng.choice([3, 4, 4])
+    ops = ["a"] * ns
+    ops.append("s:0:0:" + "&".join(grouped_items(["%s=%d" % (nm, rng.randrange(0, 10)) for nm in rng.sample(PONE, len(PONE))])))
+    a, b = rng.sample(range(1, ns), 2)                      # session a gets count b on {x1,x2}; session b gets count a on the y side
+    subs = {k: [] for k in range(ns)}
+    first = [(a, PXS[:min(b, 3)]), (b, (PYS[:min(a, 3)] if rng.random() < 0.6 else ["z"] if a == 1 else PYS[:min(a, 3)]))]
+    if rng.random() < 0.3:
+        first.reverse()
+    for k, ps in first:
+        if rng.random() < 0.5:
+            ops.append("p:%d:0:%s" % (k, "&".join(ps)))
+        else:
+            ops.extend("p:%d:0:%s" % (k, p) for p in ps)
+        subs[k].extend(ps)
+    for _ in range(rng.choice([4, 6, 9, 12])):
+        k = rng.randrange(ns)
+        r = rng.random()
+        if r < 0.35:
+            cand = [p for p in PONE + PXS + PYS if p not in subs[k]]
+            p = rng.choice(PONE) if rng.random() < 0.7 else rng.choice(cand or PONE)
+            if p not in subs[k]:
+                subs[k].append(p)
+            ops.append("p:%d:0:%s" % (k, with_filter(rng, p, 0.1)))
+        elif r < 0.55 and subs[k]:
+            p = rng.choice(subs[k])
+            subs[k].remove(p)
+            ops.append("u:%d:%s" % (k, p))
+        elif r < 0.85:
+            items = grouped_items(["%s=%d" % (rng.choice(PONE), rng.randrange(0, 10)) for _ in range(rng.choice([1, 2, 2, 3]))])
+            ops.append("s:%d:0:%s" % (rng.choice([0, 0, k]), "&".join(items)))
+        elif r < 0.93:
+            ops.append("r:0:0:%s" % rng.choice(PONE))
+        elif k != 0 and r < 0.97:
+            ops.append("d:%d" % k)
+            subs[k] = []
+    ops.append("s:0:0:" + "&".join("%s=%d" % (nm, 10 + i) for i, nm in enumerate(PONE)))
+    return ";".join(ops)
+
+
 class CHECK(vlib.Check):
     prop = "C04"
     prop_file = "Properties_C04.v"
@@ -285,6 +347,8 @@ class CHECK(vlib.Check):
                 "list-of-unique-values (ckeys) matches exactly the listed names (C15's unique_spec; F8 lies outside)",
                 "well-formed histories: a session arrives under a fresh (host, session-name) pair (ids come from a counter); fewer than "
                 "2^31-1 SUBSCRIBE: items (uint32 counts / int32 deltas); BATCH nesting below the server's limit of 100",
+                "a client unsubscribes under the spelling it subscribed with (REMOVEPARAMETERS works on parameter names: 'SUBSCRIBE:x' does "
+                "not remove what 'SUBSCRIBE:/*/*/x' created; the model removes the entry)",
                 "\"own nodes\" = the code's own test (name of the depth-2 ancestor = session id string); equals the session's subtree "
                 "when session names are unique and no host is named like a session",
                 "memory safety and object lifetime of the C++ (observed by ASan/UBSan in the harness only)"]
@@ -317,6 +381,9 @@ class CHECK(vlib.Check):
         for i in range(n // 4):
             g = Gen(rng, multi_subscribers=True, allow_quiet=False, allow_max=True)
             out.append(("multimax", "x|" + g.case(rng.choice([8, 12, 20]), rng.choice([2, 3, 4]))))
+        # colliding hash sums in the pool of subscriber tables (session ids are 0,1,2,.. in every case: the harness forks per case)
+        for i in range(n // 5):
+            out.append(("pool", "m|" + pool_case(rng)))
         # malformed-but-accepted paths (empty clauses): model/impl correspondence plus the refcount oracle
         out.append(("malformed", "z|a;a;s:1:0:x/=1;p:0:0:x/;p:0:0:x/;u:0:x/;s:1:0:x/=2;d:0"))
         for i in range(n // 5):
